@@ -432,7 +432,7 @@ func (w *World) checkCacheUpdate(r *Report, fn *ssa.Function, mu *ssa.MapUpdate,
 			return
 		case *ssa.Call:
 			g := x.Call.StaticCallee()
-			if g != nil && g.Pkg != nil && g.Pkg.Pkg.Path() == twigPath {
+			if g != nil && isTwigFn(g) {
 				fromHelper++
 				okG, n, imp := w.pureEntryFunc(r, g)
 				nLookupStores += n
